@@ -70,6 +70,10 @@ def check(repo: Repo) -> Result:
 
     r9 = res.rule("C08-R9", "a copied or deep-copied offset unit keeps its zero point: Unit.copy hands scale, offset and dimension of the original to the copy (a deep-copied 100 degC must still convert to 212 degF and still be refused by * / **; shared with C11-R4)", floor=1)
     share(res, r9, "C11", _copy, ["C11-R4"], want=lambda k: k == "Unit.copy:values")
+    from rules import c02
+
+    r10 = res.rule("C08-R10", "the refusal of arithmetic between readings on different scales (degC + degF, degC + mdegC) is keyed on the offset the conversion factor routine reports: that routine leaves the offset out only when neither unit has one - a shortcut that returns (ratio, None) for two offset units (prefixed forms of one scale, 'same zero point') silently switches the refusal off (shared with C02-R4)", floor=4)
+    share(res, r10, "C02", lambda t: c02.ratio_direction(repo, t), ["C02-R4"], min_keys=4)
     return res
 
 
